@@ -24,7 +24,7 @@ class Session:
         self.rxfull = b""
         self.sends = 0
         self.recvs = 0
-        self.fault = sc.get("fault")            # {"at": "send"|"recv", "n": k, "kind": "raise"|"eof"} or None
+        self.faults = list(sc.get("faults") or ([sc["fault"]] if sc.get("fault") else []))   # [{"at": "send"|"recv"|"op", "n": k, "kind": "raise"|"eof"}]
         self.peer_gone = False
         self.chunk = sc.get("chunk", 4096)
         self.budget = sc.get("budget", 400000)
@@ -46,8 +46,8 @@ class Session:
     def raw_send(self, data):
         self.tick()
         self.sends += 1
-        f = self.fault
-        if f and (f.get("at") == "send" and f["n"] == self.sends or f.get("at") == "op" and f["n"] == self.sends + self.recvs):
+        f = next((x for x in self.faults if x.get("at") == "send" and x["n"] == self.sends or x.get("at") == "op" and x["n"] == self.sends + self.recvs), None)
+        if f:
             self.fault_fired = True
             self.ev({"k": "fault", "at": "send", "kind": f["kind"], "n": self.sends})
             if f["kind"] == "eof":
@@ -69,8 +69,8 @@ class Session:
     def raw_recv(self, n):
         self.tick()
         self.recvs += 1
-        f = self.fault
-        if f and (f.get("at") == "recv" and f["n"] == self.recvs or f.get("at") == "op" and f["n"] == self.sends + self.recvs):
+        f = next((x for x in self.faults if x.get("at") == "recv" and x["n"] == self.recvs or x.get("at") == "op" and x["n"] == self.sends + self.recvs), None)
+        if f:
             self.fault_fired = True
             self.ev({"k": "fault", "at": "recv", "kind": f["kind"], "n": self.recvs})
             self.lose_pending()
